@@ -463,6 +463,9 @@ func accessPath(v ssa.Value) string {
 		return accessPath(x.X)
 	case *ssa.MakeInterface:
 		return accessPath(x.X)
+	case *ssa.Call, *ssa.Extract, *ssa.Phi, *ssa.Lookup, *ssa.TypeAssert, *ssa.Next:
+		// any other SSA value is a root of its own (names are unique per function)
+		return "%" + v.Name()
 	}
 	return ""
 }
